@@ -96,7 +96,7 @@ def slots_of(bs):
 
 
 def expect(p, f, c, seg):
-    """The specification, on the implementation's inputs only. Returns dict: trap (None|'oob'|'unaligned'|'either'),
+    """The specification, on the implementation's inputs only. Returns dict: trap (None|'oob'|'unaligned'),
     pre (list of slots), main (list of slots | 'twin' | None when unknown), writes [(ea, bytes)], size1, unknown (bool:
     the window does not hold the bytes needed), facts for the distribution."""
     w = Win(c)
@@ -145,10 +145,10 @@ def expect(p, f, c, seg):
     out["ea"], out["n"] = ea, n
     out["pos"] = "last" if ea + n == size else "first-oob" if ea + n == size + 1 else None
     oob = ea + n > size
+    if oob:          # out of bounds first, atomics included: "an access whose effective address plus width exceeds the current size
+        out["trap"] = "oob"; return out   # traps with an out-of-bounds error"; only an in-bounds misaligned atomic is 'unaligned'
     if fam in ATOMIC_FAMS and ea % n != 0:
-        out["trap"] = "either" if oob else "unaligned"; return out
-    if oob:
-        out["trap"] = "oob"; return out
+        out["trap"] = "unaligned"; return out
     old = w.get(ea, n)
     if old is None: out["unknown"] = True; old = bytes(n)
     if fam in ("load", "vload"):
@@ -193,7 +193,7 @@ def oracle(p, f, c, seg):
     trap = c.get("trap") or None
     got = diff_map(c)
     if e["trap"]:
-        ok = trap in (("oob", "unaligned") if e["trap"] == "either" else (e["trap"],))
+        ok = trap == e["trap"]
         if not ok: return "the specification traps (%s); the engine: %s" % (e["trap"], trap or "returned " + str(c.get("res"))), e
         if got: return "a trapping access changed memory at %s" % sorted(got)[:8], e
         if c["size1"] != e["size1"]: return "size after the call %d, expected %d" % (c["size1"], e["size1"]), e
@@ -404,7 +404,6 @@ def run(ck, binp, seed, tier, viol):
                 f = p["funcs"][ci["f"]]
                 e = expect(p, f, ci, seg)
                 ta, tb = ci.get("trap") or "", cc.get("trap") or ""
-                if e["trap"] == "either" and {ta, tb} <= {"oob", "unaligned"}: ta = tb = "trap"
                 ka = (ci["a"], ci["b"], ci["x"], ci["y"], ta, norm_res(f["res"], ci.get("res")), ci.get("diff"), ci["size1"])
                 kb = (cc["a"], cc["b"], cc["x"], cc["y"], tb, norm_res(f["res"], cc.get("res")), cc.get("diff"), cc["size1"])
                 if ka != kb:
@@ -439,7 +438,7 @@ def run(ck, binp, seed, tier, viol):
                     if m.get("off", 0) >= 1 << 31: dist["static_offset>=2^31"] += 1
                     if (e.get("ea") or 0) >= 1 << 32: dist["effective_address>=2^32"] += 1
                     if m.get("base"): bump(dist["base"], m["base"]["k"])
-                    if e["trap"] in ("unaligned", "either"): dist["misaligned_atomic"] += 1
+                    if m["fam"] in ATOMIC_FAMS and e.get("ea") is not None and e["ea"] % max(e.get("n") or 1, 1) != 0: dist["misaligned_atomic"] += 1
                     if m["fam"] == "copy" and not e["trap"]:
                         s_, d_, n_ = src_val(m["s"], c), src_val(m["d"], c), src_val(m["l"], c)
                         if s_ != d_ and abs(s_ - d_) < n_: dist["bulk_overlapping_copy"] += 1
